@@ -316,9 +316,46 @@ std::string describe(const Instance &in, long N, long k) {
            " stream=" + (in.ss_heap ? "heap" : "in-object") + (in.ext ? std::string(" pre-state=") + kExt[in.ext] : std::string()) + (in.huge ? " targets own 1 MiB blocks" : "") + " allocs=" + verif::num(N) + (k ? " fail k=" + verif::num(k) : "");
 }
 
+
+// ---- canary: results of a fixed set of ordinary calls, digested.  Computed once before any fault is injected in this process and
+// again after every faulted run: an operation that failed half-way must not leave anything behind (per-thread scratch tables, caches,
+// pending state) that changes what later, unrelated calls return.
+uint64_t canary_digest() {
+    uint64_t h = 1469598103934665603ull;
+    auto mixb = [&](const void *p, size_t n) { const unsigned char *b = (const unsigned char *)p; for (size_t i = 0; i < n; i++) { h ^= b[i]; h *= 1099511628211ull; } h ^= n + 0x51; h *= 1099511628211ull; };
+    auto mixs = [&](const ST::string &x) { mixb(x.c_str(), x.size()); };
+    va::LibScope l;
+    const ST::string subj = ST::string::from_validated(" ,ab-xyz;AB,a b\tmiddle, words;and-more  ;zyx-ba, ", 49);
+    static const char *const sets[] = {" ", "a,", "ab", "xyz ,", ";- ", " ,;-abxyz", "AB", "\t\n"};
+    for (const char *cs : sets) { mixs(subj.trim(cs)); mixs(subj.trim_left(cs)); mixs(subj.trim_right(cs)); for (const ST::string &t : subj.tokenize(cs)) mixs(t); }
+    mixs(subj.trim()); for (const ST::string &t : subj.tokenize()) mixs(t);
+    static const char *const needles[] = {"ab", "AB", "xyz", "a b", ";", "MIDDLE", "-"};
+    for (const char *nd : needles) {
+        long a = subj.find(nd), b = subj.find(nd, ST::case_insensitive), c = subj.find_last(nd), d = subj.find_last(nd, ST::case_insensitive);
+        mixb(&a, sizeof a); mixb(&b, sizeof b); mixb(&c, sizeof c); mixb(&d, sizeof d);
+        mixs(subj.replace(nd, "#", ST::case_insensitive)); mixs(subj.before_first(nd, ST::case_insensitive)); mixs(subj.after_last(nd));
+        for (const ST::string &t : subj.split(nd, 3, ST::case_insensitive)) mixs(t);
+    }
+    mixs(subj.to_upper()); mixs(subj.to_lower());
+    int ci = subj.compare_i("x"); size_t hs = ST::hash()(subj) ^ ST::hash_i()(subj); mixb(&ci, sizeof ci); mixb(&hs, sizeof hs);
+    mixs(ST::format("{}|{+d}|{#x}|{#o}|{>8}|{_*<9}|{.3}|{c}|{f}|{.70e}|{b}", -12345, 77, 255u, 8, "right", "left", "precision", U'€', 1.5, 1e100, 5));
+    mixs(ST::format_latin_1("{}|{>6}", "\xE9t\xE9", 42));
+    mixs(ST::string::from_int(-987654321, 7)); mixs(ST::string::from_uint(0xFFFFFFFFFFFFFFFFull, 36, true)); mixs(ST::string::from_double(2.5e-7));
+    { ST::string_stream ss; ss << subj << -1 << ' ' << 3.25 << u"é€" << U"\U0001F600"; ss.append_char('p', 300); mixb(ss.raw_buffer(), ss.size()); mixs(ss.to_string()); }
+    { ST::conversion_result r; long v = ST::string("  -0x7fZ").to_long(r, 0); double dv = ST::string("12.5e3x").to_double(r); mixb(&v, sizeof v); mixb(&dv, sizeof dv); }
+    { ST::utf16_buffer u = subj.to_utf16(); mixb(u.data(), u.size() * 2); ST::utf32_buffer w = ST::string("\xC3\xA9\xE2\x82\xAC\xF0\x9F\x98\x80z").to_utf32(); mixb(w.data(), w.size() * 4);
+      mixs(ST::string::from_utf16(u)); mixs(ST::string::from_latin_1("caf\xE9", 4)); ST::char_buffer l1 = ST::string("caf\xC3\xA9").to_latin_1(); mixb(l1.data(), l1.size());
+      mixs(ST::string("a\xFFz", 3, ST::substitute_invalid)); }
+    { ST::string hx = ST::hex_encode("\x00\x9A\xFFzz", 5), b6 = ST::base64_encode("any carnal pleas", 16); mixs(hx); mixs(b6);
+      ST::char_buffer d1 = ST::hex_decode(hx), d2 = ST::base64_decode(b6); mixb(d1.data(), d1.size()); mixb(d2.data(), d2.size()); }
+    return h;
+}
+uint64_t g_canary = 0; bool g_have_canary = false;
+
 // Runs one instance: counting pass + one faulted run per allocation.  Returns "" or the violation (with the failing k in *kfail).
 std::string run_instance(const Instance &in, long &N, long &pairs, long &nontrivial, long only_k, long *kfail) {
     const Op &op = kOps[in.op];
+    if (!g_have_canary) { va::reset(); g_canary = canary_digest(); g_have_canary = true; if (canary_digest() != g_canary) return "the canary calls are not deterministic (harness)"; }
     // counting pass (no fault)
     {
         va::reset();
@@ -352,6 +389,9 @@ std::string run_instance(const Instance &in, long &N, long &pairs, long &nontriv
         if (!w.empty()) return "allocation " + verif::num(k) + " of " + verif::num(N) + " failed: " + w;
         w = f.reuse_and_destroy();
         if (!w.empty()) return "allocation " + verif::num(k) + " of " + verif::num(N) + " failed: " + w;
+        if (canary_digest() != g_canary)
+            return "allocation " + verif::num(k) + " of " + verif::num(N) + " failed; afterwards a fixed set of unrelated calls (trim/tokenize/find/replace/split/format/conversions/codecs on fresh objects) "
+                   "returns results that differ from what it returned before any fault was injected: the failed operation left hidden state behind";
     }
     if (kfail) *kfail = 0;
     return std::string();
